@@ -890,9 +890,16 @@ impl<I: Hash + Eq + Clone, A: Hash + Eq + Clone> Game<I, A> {
             let total: f64 = vals.iter().sum();
             if total == 0.0 {
                 return Err(StratError::UninitializedInfoset);
-            } else {
+            } else if total.is_finite() {
                 for val in vals.iter_mut() {
                     *val /= total;
+                }
+            } else {
+                // the sum of large finite weights overflowed, so scale down before normalizing
+                let max = vals.iter().copied().fold(0.0, f64::max);
+                let total: f64 = vals.iter().map(|val| val / max).sum();
+                for val in vals.iter_mut() {
+                    *val = *val / max / total;
                 }
             }
         }
@@ -1006,9 +1013,16 @@ impl<I: Eq, A: Eq> Game<I, A> {
             let total: f64 = vals.iter().sum();
             if total == 0.0 {
                 return Err(StratError::UninitializedInfoset);
-            } else {
+            } else if total.is_finite() {
                 for val in vals.iter_mut() {
                     *val /= total;
+                }
+            } else {
+                // the sum of large finite weights overflowed, so scale down before normalizing
+                let max = vals.iter().copied().fold(0.0, f64::max);
+                let total: f64 = vals.iter().map(|val| val / max).sum();
+                for val in vals.iter_mut() {
+                    *val = *val / max / total;
                 }
             }
         }
